@@ -51,7 +51,11 @@ RULE = ("(type, value) pairs: every wrapper shape to depth 3 over the 5 specifie
         "position, provided/omitted/null fields) or carrying exactly one labelled mistake; both the "
         "JSON route (coerce_value) and the literal route (value_from_ast, with nested variables); "
         "requests executed end to end (coerce_variable_values + argument_values + resolver kwargs) "
-        "with variables of equal / stricter / defaulted-nullable type; non-trivial = the type has a "
+        "with variables of equal / stricter / defaulted-nullable type; requests selecting ONE field "
+        "node on an interface / union position whose concrete types declare the field with their own "
+        "defaults, extra nullable arguments and python names, objects of several concrete types "
+        "returned in varying order, each resolver's kwargs compared with coerce_argument_values for "
+        "that type's own definition; non-trivial = the type has a "
         "wrapper, enum or input object, or the value is a boundary / wrong one; distinct = distinct "
         "(schema, type or argument definitions, value / request text, variables)")
 
@@ -77,6 +81,16 @@ def _built(sd, argdefs=()):
         if len(_BUILT) > 400:
             _BUILT.clear()
         b = _BUILT[key] = G.Built(sd, argdefs)
+    return b
+
+
+def _built_abs(case):
+    key = json.dumps(["abs", case["schema"], case["iface_args"], case["impls"]], sort_keys=True)
+    b = _BUILT.get(key)
+    if b is None:
+        if len(_BUILT) > 400:
+            _BUILT.clear()
+        b = _BUILT[key] = G.BuiltAbs(case["schema"], case["iface_args"], case["impls"])
     return b
 
 
@@ -132,6 +146,28 @@ def corpus():
     for t in (G.N("Point", True), G.L(G.N("Point")), G.N("Point")):
         ex([{"name": "p", "py": "p_py", "type": t, "default": None}],
            "{ f(p: {x: 1, zzUnknown: 2}) }", {}, "unknown-field")
+    # one field node on an abstract position, resolved against several concrete
+    # field definitions (seeded C07-b: argument cache keyed by the node alone)
+    ia = [{"name": "scale", "py": "scale", "type": G.N("Int"), "default": [1]},
+          {"name": "p", "py": "p", "type": G.N("Point"), "default": None}]
+    impls = [
+        {"name": "ThingA", "args": [
+            {"name": "scale", "py": "scale_a", "type": G.N("Int"), "default": [10]},
+            {"name": "p", "py": "p", "type": G.N("Point"), "default": [{"x": 3, "y_py": 7, "label": "pt"}]},
+            {"name": "label", "py": "label_py", "type": G.N("String"), "default": ["a"]}]},
+        {"name": "ThingB", "args": [
+            {"name": "scale", "py": "scale", "type": G.N("Int"), "default": [20]},
+            {"name": "p", "py": "p_b", "type": G.N("Point"), "default": None},
+            {"name": "verbose", "py": "verbose", "type": G.N("Boolean"), "default": None}]},
+    ]
+    for pos in ("iface", "union"):
+        for vd, call, raw in (("", "", {}), ("", "(scale: 5)", {}), ("", "(p: {x: 1})", {}),
+                              ("($v: Int, $w: Point)", "(scale: $v, p: $w)", {"w": {"x": 2}}),
+                              ("($v: Int = 4)", "(scale: $v)", {"v": None})):
+            for order in (["ThingA", "ThingB"], ["ThingB", "ThingA", "ThingB"]):
+                out.append({"kind": "abs", "schema": sd, "iface_args": ia, "impls": impls, "pos": pos,
+                            "order": order, "vardefs": vd, "call": call, "raw": raw,
+                            "label": "corpus-abstract"})
     # open findings pinned by the test-suite
     val(G.N("Int"), "12", "numeric-string-for-number")
     val(G.N("Float"), "1.5", "numeric-string-for-number")
@@ -264,6 +300,107 @@ def _exec_case(rng, sd):
     return case
 
 
+def _abs_case(rng, sd):
+    names = ["Int", "Float", "String", "ID", "Boolean", "Any1", "Tag"] + [
+        td["name"] for td in sd["types"] if td["kind"] in ("enum", "input")]
+    shapes = G.type_shapes(1)
+
+    def default_for(t):
+        dj = G.gen_json(rng, sd, t, 1, None)
+        if dj is None and t[1]:
+            return None
+        return [G.internal_of(sd, t, dj)]
+
+    iface_args = []
+    for i in range(rng.choice([1, 2, 2, 3])):
+        t = rng.choice(shapes)(rng.choice(names))
+        a = {"name": rng.choice(["a", "scale", "fmt", "inputValue"]) + str(i), "type": t, "default": None}
+        a["py"] = a["name"]
+        if rng.random() < 0.5:
+            a["default"] = default_for(t)
+        iface_args.append(a)
+    impls = []
+    for k, tn in enumerate(["ThingA", "ThingB", "ThingC"][:rng.choice([2, 2, 3])]):
+        args = []
+        for a in iface_args:
+            c = dict(a)
+            r = rng.random()
+            if r < 0.45:
+                c["default"] = default_for(a["type"])      # its own default
+            elif r < 0.6:
+                c["default"] = None                        # no default here
+            if rng.random() < 0.5:
+                c["py"] = "py%d_%s" % (k, a["name"].lower())
+            args.append(c)
+        for e in range(rng.choice([0, 0, 1, 2])):
+            t = G.nullable(rng.choice(shapes)(rng.choice(names)))
+            x = {"name": "extra%d%s" % (e, "abc"[k]) if rng.random() < 0.5 else "extra%d" % e,
+                 "type": t, "default": None}
+            x["py"] = x["name"] if rng.random() < 0.5 else "py_" + x["name"]
+            if rng.random() < 0.6:
+                x["default"] = default_for(t)
+            if any(y["name"] == x["name"] for y in args):
+                continue
+            args.append(x)
+        rng.shuffle(args)
+        impls.append({"name": tn, "args": args})
+    tnames = [i["name"] for i in impls]
+    order = [rng.choice(tnames) for _ in range(rng.randint(2, 5))]
+    if len(set(order)) == 1:
+        order.append(rng.choice([t for t in tnames if t != order[0]]))
+    # the call written at the single field node
+    parts, vdefs, raw = [], [], {}
+    label = "abstract"
+    for i, a in enumerate(iface_args):
+        t = a["type"]
+        mode = rng.choice(["omit", "omit", "lit", "lit", "var", "var"])
+        wrong = rng.random() < 0.15
+        lab = rng.choice(G.WRONG_LABELS) if wrong else None
+        plan = G.Plan(rng, lab) if wrong else None
+        j = G.gen_json(rng, sd, t, 2, plan)
+        planted = wrong and not plan.armed
+        if mode == "lit":
+            parts.append("%s: %s" % (a["name"], G.lit_text(sd, t, j)))
+            if planted:
+                label = lab
+        elif mode == "var":
+            vn = "v%d" % i
+            vt, vdefault = t, ""
+            r = rng.random()
+            if r < 0.3 and t[1]:
+                vt = G.nullable(t)
+                vdefault = " = " + G.lit_text(sd, t, G.gen_json(rng, sd, t, 1, None))
+            vdefs.append("$%s: %s%s" % (vn, G.ty_text(vt), vdefault))
+            parts.append("%s: $%s" % (a["name"], vn))
+            r = rng.random()
+            if r < 0.6:
+                raw[vn] = j
+                if planted:
+                    label = lab
+            elif r < 0.75:
+                raw[vn] = None
+    if rng.random() < 0.1:
+        # an argument only some concrete types declare, supplied at the shared node
+        extras = [x for imp in impls for x in imp["args"] if x["name"].startswith("extra")]
+        if extras:
+            x = rng.choice(extras)
+            parts.append("%s: %s" % (x["name"], G.lit_text(sd, x["type"], G.gen_json(rng, sd, x["type"], 1, None))))
+    return {"kind": "abs", "schema": sd, "iface_args": iface_args, "impls": impls,
+            "pos": rng.choice(["iface", "union"]), "order": order,
+            "vardefs": ("(" + ", ".join(vdefs) + ")") if vdefs else "",
+            "call": ("(" + ", ".join(parts) + ")") if parts else "",
+            "raw": raw, "label": label}
+
+
+def _abs_query(case):
+    """the one field node g(call), placed on the interface-typed list or
+    (through a fragment on the interface) on the union-typed list"""
+    body = "{ g%s }" % case["call"]
+    if case["pos"] == "iface":
+        return "query Q%s { things %s }" % (case["vardefs"], body)
+    return "query Q%s { items { ... on Thing %s } }" % (case["vardefs"], body)
+
+
 GRID_VALUES = [None, 0, 1, -1, 2 ** 31 - 1, -2 ** 31, 2 ** 31, -2 ** 31 - 1, 1.5, 2.0, True, False,
                "", "abc", "RED", "NOPE", "12", [], [None], [1], [[1]], ["RED"], {}, {"x": 1},
                {"x": None}, {"x": 1, "y": None}, {"x": 1, "zz": 2}, {"value": 1}, [{"x": 2}]]
@@ -315,6 +452,8 @@ def generate(rng, tier):
                     cases.append({"kind": "lit", "schema": sd, "type": shape(n), "lit": text, "vars": {}, "label": lab})
         for _ in range(60 if quick else 600):
             cases.append(_exec_case(rng, sd))
+        for _ in range(40 if quick else 400):
+            cases.append(_abs_case(rng, sd))
     # value grid over the fixed schema: exhaustive for depth <= 2 in the thorough tier
     grid = list(_grid(fixed, 2))
     if quick:
@@ -369,6 +508,67 @@ def _run_request(b, query, raw, **kw):
     return {"crash": "unexpected-result", "msg": str([type(e).__name__ for e in errs])[:200]}
 
 
+def _abs_node(case, doc):
+    sels = doc.definitions[0].selection_set.selections[0].selection_set.selections
+    node = sels[0]
+    if case["pos"] == "union":
+        node = node.selection_set.selections[0]
+    return node
+
+
+def _abs_request(b, case, doc, **kw):
+    """-> {"items": [per returned object: {"ok": kwargs} | {"rej": 1}]} or a
+    request-level outcome"""
+    del b.calls[:]
+    b.order = case["order"]
+    field = "things" if case["pos"] == "iface" else "items"
+    try:
+        res = graphql_blocking(b.schema, doc, variables=case["raw"], **kw)
+    except Exception as e:  # noqa
+        return {"crash": type(e).__name__, "msg": str(e)[:200]}
+    errs = list(res.errors or [])
+    if errs and all(isinstance(e, ValidationError) for e in errs):
+        return {"validation": len(errs), "called": len(b.calls)}
+    if errs and all(isinstance(e, VariableCoercionError) for e in errs):
+        return {"rej": 3, "called": len(b.calls)}
+    got = {}
+    for idx, kw_ in b.calls:
+        if idx in got:
+            return {"crash": "resolver-called-twice-for-one-object"}
+        got[idx] = dict(kw_)
+    failed = {}
+    for e in errs:
+        path = list(getattr(e, "path", None) or [])
+        if isinstance(e, CoercionError) and len(path) == 3 and path[0] == field and path[2] == "g":
+            failed[path[1]] = 1
+        else:
+            return {"crash": "unexpected-error", "msg": ("%s %s" % (type(e).__name__, e))[:200]}
+    items = []
+    for i in range(len(case["order"])):
+        if i in got and i not in failed:
+            items.append({"ok": got[i]})
+        elif i in failed and i not in got:
+            items.append({"rej": 1})
+        else:
+            return {"crash": "object-%d-neither-resolved-nor-rejected-once" % i}
+    return {"items": items}
+
+
+def _run_abs(case):
+    b = _built_abs(case)
+    doc = parse(_abs_query(case))
+    op = doc.definitions[0]
+    node = _abs_node(case, doc)
+    obs = {"vars": _call(lambda: coerce_variable_values(b.schema, op, case["raw"]))}
+    if "ok" in obs["vars"]:
+        coerced = obs["vars"]["ok"]
+        obs["api"] = {imp["name"]: _call(lambda: coerce_argument_values(b.fields[imp["name"]], node, coerced))
+                      for imp in case["impls"]}
+    obs["exec"] = _abs_request(b, case, doc, validators=[])
+    obs["validated"] = _abs_request(b, case, doc)
+    return obs
+
+
 def run_impl(case):
     k = case["kind"]
     sd = case["schema"]
@@ -379,6 +579,8 @@ def run_impl(case):
         b = _built(sd)
         node = parse_value(case["lit"])
         return {"r": _call(lambda: value_from_ast(node, b.ty(case["type"]), case["vars"]))}
+    if k == "abs":
+        return _run_abs(case)
     b = _built(sd, case["args"])
     doc = parse(case["query"])
     op = doc.definitions[0]
@@ -429,7 +631,29 @@ def _input_term(case):
         ser.clist(node.arguments, ser.carg), raw)
 
 
+def _abs_term(case, obs):
+    doc = parse(_abs_query(case))
+    op = doc.definitions[0]
+    node = _abs_node(case, doc)
+    raw = ser.clist(list(case["raw"].items()), lambda kv: "(%s, %s)" % (ser.cstr(kv[0]), G.cjson(kv[1])))
+    defs = {imp["name"]: ser.clist(imp["args"], G.cfield) for imp in case["impls"]}
+    ex = obs["exec"]
+    if "items" in ex:
+        items = ser.clist(list(zip(case["order"], ex["items"])),
+                          lambda p: "(%s, %s)" % (defs[p[0]], _cobs(p[1])))
+    elif ex.get("rej") == 3 and not ex.get("called"):
+        items = "[]"
+    else:
+        # request-level crash: make the comparison fail visibly
+        items = "[(%s, OCrash)]" % defs[case["order"][0]]
+    return "(CaseAbs %s %s %s %s %s %s)" % (
+        _schema_ref(case["schema"]), ser.clist(op.variable_definitions, ser.cvardef),
+        ser.clist(node.arguments, ser.carg), raw, _cobs(obs["vars"]), items)
+
+
 def to_coq(case, obs):
+    if case["kind"] == "abs":
+        return _abs_term(case, obs)
     if case["kind"] in ("val", "lit"):
         return "(%s %s)" % (_input_term(case), _cobs(obs["r"]))
     return "(%s %s %s %s)" % (
@@ -438,6 +662,8 @@ def to_coq(case, obs):
 
 
 def show_expr(case, obs):
+    if case["kind"] == "abs":
+        return "model_C07_items %s" % to_coq(case, obs)
     return "model_C07 %s" % to_coq(case, obs)
 
 
@@ -446,6 +672,10 @@ _KF = {"numeric-string-for-number", "number-for-string"}
 
 
 def nontrivial(case, obs):
+    if case["kind"] == "abs":
+        # one node really resolved against at least two different definitions
+        ex = obs.get("exec", {})
+        return "items" in ex and len(set(case["order"])) >= 2
     if case["kind"] == "exec":
         return bool(case["args"])
     t = case["type"]
@@ -463,6 +693,8 @@ def classify(case, obs):
         return "variable-route:" + lab, None
     if case["kind"] == "lit":
         return "literal-route:" + lab, None
+    if case["kind"] == "abs":
+        return "resolver-kwargs-per-concrete-type:" + lab, None
     return "resolver-kwargs:" + lab, None
 
 
@@ -470,8 +702,40 @@ _MUST_REJECT = {"null-for-nonnull", "missing-required", "unknown-field", "unknow
                 "int-out-of-range"}
 
 
+def _abs_checks(case, obs):
+    out = []
+    ex, va = obs["exec"], obs["validated"]
+    for name in ("vars", "exec", "validated"):
+        if "crash" in obs[name]:
+            out.append(("raises-only-documented-errors (%s): %s" % (name, obs[name]["crash"]), None))
+    for tn, r in obs.get("api", {}).items():
+        if "crash" in r:
+            out.append(("raises-only-documented-errors (coerce_argument_values %s): %s" % (tn, r["crash"]), None))
+    if "items" in ex and "api" in obs:
+        # what each object's resolver got = coerce_argument_values for ITS type's field definition
+        for i, (tn, it) in enumerate(zip(case["order"], ex["items"])):
+            api = obs["api"][tn]
+            if ("ok" in it) != ("ok" in api) or it.get("ok") != api.get("ok"):
+                out.append(("each-concrete-type-gets-arguments-of-its-own-definition (object %d: %s)" % (i, tn), None))
+                break
+    if "validation" in va:
+        if va["called"]:
+            out.append(("rejected-before-any-resolver-runs", None))
+    elif va != ex:
+        out.append(("validated-and-unvalidated-requests-give-same-kwargs", None))
+    if ex.get("rej") == 3 and ex.get("called"):
+        out.append(("rejected-before-any-resolver-runs", None))
+    if case.get("label") in _MUST_REJECT and "items" in va and any("ok" in it for it in va["items"]):
+        out.append(("structurally-wrong-rejected:" + case["label"], None))
+    if case.get("label") in _KF and "items" in va and any("ok" in it for it in va["items"]):
+        out.append(("structurally-wrong-rejected:" + case["label"], case["label"]))
+    return out
+
+
 def direct_checks(case, obs):
     out = []
+    if case["kind"] == "abs":
+        return _abs_checks(case, obs)
     if case["kind"] != "exec":
         r = obs["r"]
         if "crash" in r:
@@ -541,6 +805,8 @@ def extra_evidence(cases, obss):
         lab = c.get("label", "?").split("+")[0]
         labels[lab] = labels.get(lab, 0) + 1
         r = o.get("r") or o.get("exec")
+        if c["kind"] == "abs":
+            r = {"ok": 1} if "items" in r else r
         key = c["kind"] + ":" + ("ok" if "ok" in r else "rej%s" % r["rej"] if "rej" in r else "crash")
         outcomes[key] = outcomes.get(key, 0) + 1
     types = {json.dumps(c["type"]) for c in cases if "type" in c}
@@ -551,4 +817,34 @@ def extra_evidence(cases, obss):
         "requests_rejected_by_validation": sum(1 for o in obss if "validation" in o.get("validated", {})),
         "requests_reaching_resolver": sum(1 for o in obss if "ok" in o.get("exec", {})),
         "schemas": len({json.dumps(c["schema"], sort_keys=True) for c in cases}),
+        "abstract_requests": _abs_stats(cases, obss),
     }}
+
+
+def _abs_stats(cases, obss):
+    st = {"requests": 0, "on_interface": 0, "on_union_fragment": 0, "objects_resolved": 0,
+          "objects_rejected": 0, "node_resolved_against_2plus_definitions": 0,
+          "with_literal_args": 0, "with_variable_args": 0, "without_args": 0,
+          "kwargs_differ_between_concrete_types": 0}
+    for c, o in zip(cases, obss):
+        if c["kind"] != "abs":
+            continue
+        st["requests"] += 1
+        st["on_interface" if c["pos"] == "iface" else "on_union_fragment"] += 1
+        call = c["call"]
+        if "$" in call:
+            st["with_variable_args"] += 1
+        elif "(" in call:
+            st["with_literal_args"] += 1
+        else:
+            st["without_args"] += 1
+        ex = o.get("exec", {})
+        if "items" in ex:
+            oks = [(tn, it["ok"]) for tn, it in zip(c["order"], ex["items"]) if "ok" in it]
+            st["objects_resolved"] += len(oks)
+            st["objects_rejected"] += len(ex["items"]) - len(oks)
+            if len({tn for tn, _ in oks}) >= 2:
+                st["node_resolved_against_2plus_definitions"] += 1
+                if len({json.dumps(kw, sort_keys=True) for _, kw in oks}) >= 2:
+                    st["kwargs_differ_between_concrete_types"] += 1
+    return st
